@@ -577,7 +577,8 @@ def work(task):
         acc.ev()
         switches = sum(1 for (_r, _w, _n, _re, c) in x.points if c)
         if switches:
-            acc.cls(h.name, "+".join(h.ops), level, ",".join(map(str, x.choices)))
+            # the class of an execution is its choice vector; stored as the positions of the non-default choices
+            acc.cls(h.name, "+".join(h.ops), level, ",".join(f"{i}:{c}" for i, c in enumerate(x.choices) if c))
         acc.outcome((h.name,) + tuple(obs(r) for r in x.results))
         acc.count("schedule_points", len(x.points))
         acc.count(f"preemptions={x.preemptions}")
